@@ -40,6 +40,7 @@ type FuncReport struct {
 	SpecErrors  []string   `json:"spec_errors,omitempty"`
 	Vacuous     bool       `json:"vacuous,omitempty"`
 	GenPanic    string     `json:"gen_panic,omitempty"`
+	CexPlan     *CexPlan   `json:"cex_plan,omitempty"` // how to turn a model of a failed obligation into a call of the real function
 	SolveS      float64    `json:"solve_s"`
 	GenS        float64    `json:"gen_s"`
 }
@@ -208,6 +209,7 @@ func runUnit(file, unit, filterS, pkg string, attrs map[string]string, smtdir st
 				g.run()
 			}()
 			fr.GenS = time.Since(t0).Seconds()
+			fr.CexPlan = cexPlanFor(g)
 			stabiliseNames(g.obs)
 			// events hold copies of the obligations: refresh their names too (only used for dumps)
 			t1 := time.Now()
